@@ -19,6 +19,8 @@ func init() {
 		Assumptions: []string{"Client.Ping returns by its own timeout (C20)"},
 		Rules: []RuleDef{
 			{ID: "C19.R1", Text: "round: return at the first successful ping; panic ⇔ five consecutive failures; after a cancelled wait no further ping; no state carried between rounds", Run: c19r1},
+			{ID: "C19.R11", Text: "the interval and timeout the checker runs with are the configured ones: defaulting never rewrites a configured option (same rule as C17.R1)", Run: c17r1},
+			{ID: "C19.R10", Text: "the rounds keep coming at the configured interval: the ticker that paces them is created with config.Interval, only its channel is read and its Stop deferred — nothing stops, resets or is handed it", Run: roundTickerUntouched},
 			{ID: "C19.R2", Text: "every wait is cancellable: blocking operations in run/performHealthCheck are selects with a ctx.Done() case; no time.Sleep", Run: c19r2},
 			{ID: "C19.R5", Text: "Stop undoes a Start that has happened: HealthCheck.Start is a plain synchronous call of the client's start path, never deferred to a timer, goroutine or function value", Run: healthStartPlain},
 			{ID: "C19.R6", Text: "a ping's answer is that ping's answer: NewHealthCheck wires the client it was given into the checker unchanged (no adapter between the round and Client.Ping)", Run: constructorWiring(wireHealth)},
